@@ -10,7 +10,43 @@ warnings.filterwarnings("ignore")
 faulthandler.enable()
 
 
+def cleanup_children():
+    """do not leave idle loky worker processes behind (they would linger for minutes and hold memory): shut the
+    reusable executor down and wait (bounded) for its manager thread, then kill whatever is still a child"""
+    import signal
+    import threading
+    try:
+        from joblib.externals.loky import reusable_executor as _re
+        ex = getattr(_re, "_executor", None)
+        if ex is not None:
+            t = threading.Thread(target=lambda: ex.shutdown(wait=True, kill_workers=True), daemon=True)
+            t.start()
+            t.join(10)
+    except Exception:
+        pass
+    try:
+        me = os.getpid()
+        for d in os.listdir("/proc"):
+            if not d.isdigit():
+                continue
+            try:
+                with open("/proc/%s/stat" % d) as f:
+                    st = f.read()
+                if int(st.rsplit(")", 1)[1].split()[1]) == me:
+                    os.kill(int(d), signal.SIGKILL)
+            except Exception:
+                pass
+    except Exception:
+        pass
+
+
 def main():
+    try:  # own session (see run_shards): make sure this worker does not outlive a killed ./check
+        import ctypes
+        import signal
+        ctypes.CDLL("libc.so.6", use_errno=True).prctl(1, int(signal.SIGKILL), 0, 0, 0)  # PR_SET_PDEATHSIG
+    except Exception:
+        pass
     pid, sf, of = sys.argv[1:4]
     with open(sf) as f:
         spec = json.load(f)
@@ -24,12 +60,7 @@ def main():
         json.dump(res.dump(), f, default=str)
     os.replace(tmp, of)
     sys.stdout.flush()
-    try:  # do not leave idle loky worker processes behind (they would linger for minutes and hold memory)
-        from joblib.externals.loky import reusable_executor as _re
-        if getattr(_re, "_executor", None) is not None:
-            _re._executor.shutdown(wait=False, kill_workers=True)
-    except Exception:
-        pass
+    cleanup_children()
     os._exit(0)  # do not wait for zombie threads / loky executors
 
 
